@@ -448,8 +448,14 @@ def lpc_of(root):
             body.append("mixed %s () { %s return 0; }" % (name, SPIN_FORMS[node.form % len(SPIN_FORMS)]))
         elif k == "R":
             form = node.form % 5
-            if form == 4:      # through an efun callback that carries 12 extra arguments (push_some_svalues: STACK_CHECK)
-                body.append("mixed %s () { %smap_array (({ 1 }), (: %s :), 1, 2, 3, 4, 5, 6, 7, 8, 9, 10, 11, 12); return 0; }" % (name, locals_decl(node.n), name))
+            if form == 4:      # through an efun callback that carries 8 extra arguments (push_some_svalues: STACK_CHECK)
+                # (the function declares the 13 parameters, so the pushed arguments are still on the stack when its
+                # first instruction is fetched and the high-water mark of the hook sees them)
+                params = ", ".join(["mixed e"] + ["mixed a%d" % i for i in range(8)])     # (MaxLocalVariables: 9 + 12 <= 25)
+                protos.append("mixed %s_r (%s);" % (name, params))
+                body.append("mixed %s_r (%s) { %smap_array (({ 1 }), (: %s_r :), 1, 2, 3, 4, 5, 6, 7, 8); return 0; }"
+                            % (name, params, locals_decl(min(node.n, 12)), name))
+                body.append("mixed %s () { %s_r (0, 1, 2, 3, 4, 5, 6, 7, 8); return 0; }" % (name, name))
             elif form == 0:      # direct
                 body.append("mixed %s () { %s%s (); return 0; }" % (name, locals_decl(node.n), name))
             elif form == 1:    # mutual
